@@ -19,6 +19,7 @@ use crate::Args;
 pub struct Cfg {
     pub prop: String,
     pub l2_factor: f64,
+    pub elem_factor: f64,
     pub elementwise: bool,
     pub dense_max: usize,
     pub struct_max: usize,
@@ -37,6 +38,7 @@ fn cfg_for(args: &Args) -> Cfg {
         "C02" => Cfg {
             prop: prop.clone(),
             l2_factor: 1.0,
+            elem_factor: 4.0,
             elementwise: false,
             dense_max: if t { 16384 } else { 1536 },
             struct_max: if t { 1 << 20 } else { 1 << 17 },
@@ -50,6 +52,7 @@ fn cfg_for(args: &Args) -> Cfg {
         _ => Cfg {
             prop: prop.clone(),
             l2_factor: 4.0,
+            elem_factor: 4.0,
             elementwise: true,
             dense_max: if t { 16384 } else { 1536 },
             struct_max: if t { 1 << 20 } else { 1 << 17 },
@@ -65,6 +68,16 @@ fn cfg_for(args: &Args) -> Cfg {
             entries: ALL_ENTRIES.to_vec(),
         },
     };
+    if prop == "C13" {
+        c.l2_factor = 1.0;
+        c.elementwise = true;
+        c.dense_max = if t { 4096 } else { 192 };
+        c.struct_max = 1 << 16;
+        c.struct_count = if t { 200 } else { 12 };
+        c.basis_max = if t { 256 } else { 48 };
+        c.n_impulses = 8;
+        c.classes_small = vec![InClass::Uniform, InClass::Positive, InClass::Sparse, InClass::WideRange];
+    }
     if let Some(v) = args.get_usize("dense-max") {
         c.dense_max = v;
     }
@@ -245,7 +258,7 @@ fn check_type<T: Elem>(cfg: &Cfg, st: &mut Stats, n: usize, reff: &RefFft, seed:
                     let mut what = "relative L2 error above tolerance";
                     let mut el_ratio = 0.0;
                     if cfg.elementwise {
-                        el_ratio = e.max_abs / (cfg.l2_factor * b * inp.l1.max(f64::MIN_POSITIVE));
+                        el_ratio = e.max_abs / (cfg.elem_factor * b * inp.l1.max(f64::MIN_POSITIVE));
                         st.worst(&format!("worst_elem_{}_{}", pk.name(), T::NAME), el_ratio, || case.clone());
                         if !(el_ratio <= 1.0) && !bad {
                             bad = true;
@@ -287,9 +300,10 @@ fn check_type<T: Elem>(cfg: &Cfg, st: &mut Stats, n: usize, reff: &RefFft, seed:
 pub fn run(args: &Args) {
     let cfg = cfg_for(args);
     let mut st = Stats::new();
-    let list = match args.get_usize("only-n") {
-        Some(n) => vec![n],
-        None => length_list(&cfg, args.seed),
+    let list = match (args.get_usize("only-n"), args.get("ns")) {
+        (Some(n), _) => vec![n],
+        (None, Some(ns)) => ns.split(',').filter_map(|s| s.parse().ok()).collect(),
+        (None, None) => length_list(&cfg, args.seed),
     };
     let types = args.get("types").unwrap_or("f32,f64").to_string();
     let mut max_n = 0;
